@@ -43,11 +43,15 @@ const (
 func budgetFor(n int) uint64 { return 64<<20 + 65536*uint64(n) }
 
 type viol struct {
-	Sig  string `json:"sig"`
-	What string `json:"what"`
-	Tag  string `json:"tag"`
-	Hex  string `json:"hex"`
-	FS   string `json:"fs"`
+	Sig   string `json:"sig"`
+	What  string `json:"what"`
+	Tag   string `json:"tag"`
+	Hex   string `json:"hex"`
+	FS    string `json:"fs"`
+	Valid bool   `json:"valid,omitempty"` // the input carries the must-be-accepted requirement ...
+	Req   uint64 `json:"req,omitempty"`   // ... under feature sets containing these features
+	Args  int    `json:"args,omitempty"`
+	Ref   string `json:"ref,omitempty"` // hex of the module the input must behave like
 }
 
 type sample struct {
@@ -77,8 +81,8 @@ type chunkRes struct {
 
 type childState struct {
 	seedAcc []bool
-	seedTr  *transcript
-	seedF   int
+	refKey  string // cache of the reference transcript (see refTranscript)
+	refTr   *transcript
 	plan  *plan
 	h     *harness
 	prog  *progress
@@ -192,30 +196,18 @@ func (c *childState) runChunk(ci int, ch chunk, skip []skipKey) *chunkRes {
 			}
 			c.seedAcc[f] = r.res == "accept"
 		}
-		// ... and must behave exactly like the seed: its interpreter transcript under the first
-		// accepting feature set is the reference for the over-long variants of this field
-		c.seedTr, c.seedF = nil, -1
-		for f := range featureSets {
-			if c.seedAcc[f] {
-				sb := c.plan.seeds[ch.Seed].B
-				if r := c.h.compile(engInterp, f, sb); r.cm != nil {
-					if dec, err := decodeForHarness(sb, f); err == nil && dec != nil {
-						c.prog.set(ci, 0, f, phaseMeasure, engInterp)
-						c.seedTr, c.seedF = c.h.execute(engInterp, f, r.cm, dec, 3), f
-					}
-					r.cm.Close(c.h.ctx)
-				}
-				break
-			}
-		}
 		c.prog.idle()
 	}
 	res.Inputs = int64(len(ins))
 	var ms0, ms1 runtime.MemStats
-	for base := 0; base < len(ins); base += memBatch {
-		end := base + memBatch
-		if end > len(ins) {
-			end = len(ins)
+	for base := 0; base < len(ins); {
+		// a batch never contains the same bytes twice: two CompiledModules of one binary share the
+		// engine's compiled code, and closing one would invalidate the other
+		end := base
+		inBatch := map[string]bool{}
+		for end < len(ins) && end-base < memBatch && !inBatch[string(ins[end].B)] {
+			inBatch[string(ins[end].B)] = true
+			end++
 		}
 		// ---- compile pass (allocation measured over the batch)
 		var pend []*evalState
@@ -228,18 +220,20 @@ func (c *childState) runChunk(ci int, ch chunk, skip []skipKey) *chunkRes {
 		if delta > res.MaxBatchAlloc {
 			res.MaxBatchAlloc = delta
 		}
+		// ---- execute pass
+		for _, es := range pend {
+			c.executeOne(ci, es, skipX, res)
+			es.close(c)
+		}
+		// ---- bisection of an expensive batch (after the execute pass, for the same reason as above)
 		if delta > batchBudget {
 			res.Bisects++
 			for k := base; k < end; k++ {
 				c.measureOne(ci, k, ins[k], skipC, res)
 			}
 		}
-		// ---- execute pass
-		for _, es := range pend {
-			c.executeOne(ci, es, skipX, res)
-			es.close(c)
-		}
 		c.prog.idle()
+		base = end
 	}
 	return res
 }
@@ -262,7 +256,7 @@ func (c *childState) addViol(res *chunkRes, sig, what string, in input, f int) {
 	if f >= 0 {
 		fsn = featureSets[f].Name
 	}
-	res.Viol = append(res.Viol, viol{Sig: sig, What: what, Tag: in.Tag, Hex: hex.EncodeToString(in.B), FS: fsn})
+	res.Viol = append(res.Viol, viol{Sig: sig, What: what, Tag: in.Tag, Hex: hex.EncodeToString(in.B), FS: fsn, Valid: in.Valid, Req: uint64(in.Req), Args: in.ArgSets, Ref: hex.EncodeToString(in.Ref)})
 }
 
 func outcomeSample(res *chunkRes, in input, outcome string) {
@@ -495,10 +489,10 @@ func (c *childState) executeOne(ci int, es *evalState, skipX map[int]bool, res *
 		res.Outcomes["exec:skipped:"+ts[0].Skipped+ts[1].Skipped]++
 		return
 	}
-	if in.IfSeed && c.seedTr != nil && c.seedF == f {
+	if ref := c.refTranscript(ci, es.k, in.Ref, f); ref != nil {
 		// a legal over-long re-encoding of one field must not change what the module does
 		res.Outcomes["overlong:behaviour-compared"]++
-		if d := compareTranscripts(c.seedTr, ts[0]); d != "" {
+		if d := compareTranscripts(ref, ts[0]); d != "" {
 			c.addViol(res, "overlong-changes-behaviour:"+strings.TrimPrefix(validClass(in.Tag), "overlong:"),
 				fmt.Sprintf("an over-long (legal) re-encoding of one LEB field changes the behaviour of the module on the interpreter (%s): %s", featureSets[f].Name, strings.Replace(d, engName[1], "re-encoded", -1)), in, f)
 		}
@@ -548,6 +542,27 @@ func (c *childState) executeOne(ci int, es *evalState, skipX map[int]bool, res *
 	} else {
 		res.Outcomes["engines-agree"]++
 	}
+}
+
+// refTranscript runs the reference module (the seed of an over-long re-encoding) on the interpreter
+// under feature set f; cached because all inputs of a field chunk share the seed.
+func (c *childState) refTranscript(ci, k int, ref []byte, f int) *transcript {
+	if ref == nil {
+		return nil
+	}
+	key := fmt.Sprintf("%d:%x", f, ref)
+	if c.refKey == key {
+		return c.refTr
+	}
+	c.refKey, c.refTr = key, nil
+	c.prog.set(ci, k, f, phaseExec, engInterp)
+	if r := c.h.compile(engInterp, f, ref); r.cm != nil {
+		if dec, err := decodeForHarness(ref, f); err == nil && dec != nil {
+			c.refTr = c.h.execute(engInterp, f, r.cm, dec, 3)
+		}
+		r.cm.Close(c.h.ctx)
+	}
+	return c.refTr
 }
 
 func ts0class(x, y *transcript) string {
@@ -769,11 +784,11 @@ func main() {
 		}
 		confirmed[v.Sig] = true
 		if !reproduces(dir, v.viol) {
-			fw.Fatalf("violation %q on input %s (%s) did not reproduce in a fresh process", v.Sig, v.Tag, v.Hex)
+			fw.Fatalf("violation %q on input %s (%s) did not reproduce in a fresh process: %s", v.Sig, v.Tag, v.Hex, v.What)
 		}
 	}
 	for _, v := range viols {
-		run.Violation(v.Sig, v.What+" [input "+v.Tag+"]", map[string]any{"hex": v.Hex, "fs": v.FS, "tag": v.Tag})
+		run.Violation(v.Sig, v.What+" [input "+v.Tag+"]", map[string]any{"hex": v.Hex, "fs": v.FS, "tag": v.Tag, "valid": v.Valid, "req": v.Req, "argsets": v.Args, "ref": v.Ref})
 	}
 
 	out := map[string]int64{}
@@ -853,7 +868,7 @@ func loadKnown() func(sig string) bool {
 // shows up again (as a reported violation or as a process death).
 func reproduces(dir string, v viol) bool {
 	hf := dir + "/confirm.json"
-	js, _ := json.Marshal([]map[string]string{{"hex": v.Hex, "tag": v.Tag}})
+	js, _ := json.Marshal([]map[string]any{{"hex": v.Hex, "tag": v.Tag, "valid": v.Valid, "req": v.Req, "argsets": v.Args, "ref": v.Ref}})
 	os.WriteFile(hf, js, 0o600)
 	sub := dir + "/confirm"
 	os.MkdirAll(sub, 0o700)
@@ -912,7 +927,13 @@ func replayMain(file string) {
 	var art struct {
 		Signature string
 		What      string
-		Replay    struct{ Hex, FS, Tag string }
+		Replay    struct {
+			Hex, FS, Tag string
+			Ref          string
+			Valid        bool
+			Req          uint64
+			ArgSets      int
+		}
 	}
 	if err := json.Unmarshal(b, &art); err != nil {
 		fw.Fatalf("replay: %v", err)
@@ -920,7 +941,7 @@ func replayMain(file string) {
 	dir, _ := os.MkdirTemp("", "c03-replay-")
 	defer os.RemoveAll(dir)
 	hf := dir + "/in.json"
-	js, _ := json.Marshal([]map[string]string{{"hex": art.Replay.Hex, "tag": art.Replay.Tag}})
+	js, _ := json.Marshal([]map[string]any{{"hex": art.Replay.Hex, "tag": art.Replay.Tag, "valid": art.Replay.Valid, "req": art.Replay.Req, "argsets": art.Replay.ArgSets, "ref": art.Replay.Ref}})
 	os.WriteFile(hf, js, 0o600)
 	fmt.Printf("replaying %s\n  input (%d bytes): %s\n  recorded: %s\n", art.Signature, len(art.Replay.Hex)/2, art.Replay.Hex, art.What)
 	failed := false
